@@ -25,7 +25,7 @@ import (
 func init() {
 	register(stream{
 		name: "container",
-		rule: "sets of 0–4 sealed delegations and invocations written with every writer (4 formats × {bytes, io.Writer}) and read with every reader (4 formats × {bytes, 1-byte reads, data-with-EOF reads, random chunkings}); single-entry corruptions of the written container (bit flips in the data, the stored CID and the length prefix, a token with a bad signature, duplicated and reordered blocks, a block stored under a CID of another codec/hash, a wrong version, trailing bytes); truncation at EVERY byte offset and a read fault at every offset (every 3rd in the quick tier, plus always the structural offsets: around each section boundary and right after each length prefix); unrelated writers and readers used from 8 goroutines at once; a write fault at EVERY write call of every writer including the final flush of the base64 encoders; single tokens: FromSealedReader under five chunkings, cut and failing at every offset, ToSealedWriter failing at every write call. Compared: error/ok and the set of CIDs. Added later: a later CAR block stored under the CID of an earlier one (own data, garbage, truncated data); a container used as the proof loader of its own invocations, one of which names an invocation as proof; an honest stream read right after every failed or cut read (generic and typed readers); a read fault reported once together with data, the stream then continuing (every offset × 4 chunkings). Sets of 23, 24, 25 (255–257 thorough) tokens — where a CBOR list length changes its encoding — written and read back through every variant; read faults reported with an error that WRAPS io.EOF (a failure, not a clean end) at every offset and section boundary; tokens with one field of 5 kB … 1.6 MB through every stream entry point. Non-trivial = every case but the unmodified round trips. Distinct = distinct protocol lines.",
+		rule: "sets of 0–4 sealed delegations and invocations written with every writer (4 formats × {bytes, io.Writer}) and read with every reader (4 formats × {bytes, 1-byte reads, data-with-EOF reads, random chunkings}); single-entry corruptions of the written container (bit flips in the data, the stored CID and the length prefix, a token with a bad signature, duplicated and reordered blocks, a block stored under a CID of another codec/hash, a wrong version, trailing bytes); truncation at EVERY byte offset and a read fault at every offset (every 3rd in the quick tier, plus always the structural offsets: around each section boundary and right after each length prefix); unrelated writers and readers used from 8 goroutines at once; a write fault at EVERY write call of every writer including the final flush of the base64 encoders; single tokens: FromSealedReader under five chunkings, cut and failing at every offset, ToSealedWriter failing at every write call. Compared: error/ok and the set of CIDs. Added later: a later CAR block stored under the CID of an earlier one (own data, garbage, truncated data); a container used as the proof loader of its own invocations, one of which names an invocation as proof; an honest stream read right after every failed or cut read (generic and typed readers); a read fault reported once together with data, the stream then continuing (every offset × 4 chunkings). Sets of 23, 24, 25 (255–257 thorough) tokens — where a CBOR list length changes its encoding — written and read back through every variant; read faults reported with an error that WRAPS io.EOF (a failure, not a clean end) at every offset and section boundary; tokens with one field of 5 kB … 1.6 MB through every stream entry point. One character of the base64 TEXT replaced by one outside the alphabet (start, middle, end, and the first characters of every CAR section whose offset is a multiple of three, where the decoder reports the corruption exactly between two sections). Tokens of exactly chosen sizes (the CAR block a few bytes either side of every power of two from 2^9 to 2^16; every size 420…4400 in the thorough tier) written and read back through every variant. Non-trivial = every case but the unmodified round trips. Distinct = distinct protocol lines.",
 		run:  runContainerStream,
 		eval: evalContainer,
 		cmp: func(line, g, m string) string {
@@ -207,6 +207,11 @@ func evalContainer(line string) (string, string) {
 		return readContainer(f[1], variant, f[2], b), fmt.Sprintf("container read %s/%s/%s of %d bytes", f[1], variant, f[2], len(b))
 	case "go.ctn.write":
 		return containerWriteCheck(f[1], f[2]), line
+	case "go.ctn.sizes":
+		var lo, hi int
+		fmt.Sscan(f[2], &lo)
+		fmt.Sscan(f[3], &hi)
+		return containerSizes(f[1], lo, hi), line
 	case "go.ctn.concurrent":
 		return containerConcurrent(), line
 	case "go.ctn.loader":
@@ -336,6 +341,81 @@ func containerWriteCheck(format, ns string) string {
 		if err := write(fw); err == nil && len(fw.Buf) != len(probe.Buf) { // block order varies (Go map iteration): compare sizes
 			return fmt.Sprintf("write call %d of %d failed but the writer returned nil (%d of %d bytes delivered)", k, probe.Calls, len(fw.Buf), len(probe.Buf))
 		}
+	}
+	return "ok"
+}
+
+// sealedOfSize builds and seals an invocation whose sealed form has exactly `size` bytes (a string argument is padded until
+// it fits); nil when that size cannot be hit (the padding crosses a CBOR length-prefix boundary) or is too small.
+func sealedOfSize(size int) []byte {
+	k, aud := keyFor("ed25519", 0), keyFor("ed25519", 1)
+	build := func(pad int) []byte {
+		t, err := invocation.New(k.did, aud.did, command.MustParse("/sized"), []cid.Cid{independentCid([]byte("p1"))},
+			invocation.WithNonce([]byte("nonce-nonce-size")), invocation.WithoutInvokedAt(), invocation.WithArgument("pad", strings.Repeat("x", pad)))
+		if err != nil {
+			return nil
+		}
+		b, _, err := t.ToSealed(k.priv)
+		if err != nil {
+			return nil
+		}
+		return b
+	}
+	pad := 0
+	for try := 0; try < 6; try++ {
+		b := build(pad)
+		if b == nil {
+			return nil
+		}
+		if len(b) == size {
+			return b
+		}
+		pad += size - len(b)
+		if pad < 0 {
+			return nil
+		}
+	}
+	return nil
+}
+
+// containerSizes: a container holding one token of each exact size in [lo, hi] (and one holding two of them), written with
+// the bytes and the io.Writer variant and read back: every byte of every token arrives.
+func containerSizes(format string, lo, hi int) string {
+	var prev []byte
+	hit := 0
+	for size := lo; size <= hi; size++ {
+		b := sealedOfSize(size)
+		if b == nil {
+			continue
+		}
+		hit++
+		sets := [][][]byte{{b}}
+		if prev != nil {
+			sets = append(sets, [][]byte{prev, b})
+		}
+		prev = b
+		for _, sealed := range sets {
+			var cids []string
+			for _, s := range sealed {
+				cids = append(cids, hx(independentCid(s).Bytes()))
+			}
+			sort.Strings(cids)
+			want := "ok " + strings.Join(cids, ",")
+			for _, uw := range []bool{false, true} {
+				out, err := writeWith(format, uw, sealed)
+				if err != nil {
+					return fmt.Sprintf("token of %d bytes: writer (io.Writer=%v) failed: %v", size, uw, err)
+				}
+				for _, variant := range []string{"bytes", "stream1"} {
+					if got := readContainer(format, variant, "eof", out); got != want {
+						return fmt.Sprintf("token of %d bytes written with io.Writer=%v, read with %s: %s, want %s", size, uw, variant, got, want)
+					}
+				}
+			}
+		}
+	}
+	if hit == 0 {
+		return fmt.Sprintf("harness: no size in [%d, %d] could be built", lo, hi)
 	}
 	return "ok"
 }
@@ -670,6 +750,37 @@ func containerConcurrent() string {
 	return "ok"
 }
 
+// b64Corruptions: one character of the base64 TEXT replaced by one outside the alphabet — at the start, in the middle, at the
+// end, and (CAR) at the first character of every section whose offset is a multiple of three: the decoder then hands out
+// every byte before that section and reports the corruption exactly between two sections, where a clean end of the
+// container would also be met. Always a failure: a corrupt entry, never a shorter set.
+func b64Corruptions(f string, text, raw []byte, emitRead func(format, ending string, b []byte, variant, class string)) {
+	ks := []int{0, len(text) / 2, len(text) - 1}
+	if strings.HasPrefix(f, "car") {
+		pos, b, aligned := 0, raw, 0
+		for len(b) > 0 && aligned < 12 {
+			l, n := binary.Uvarint(b)
+			if n <= 0 || uint64(len(b)-n) < l {
+				break
+			}
+			pos += n + int(l)
+			b = b[n+int(l):]
+			if pos%3 == 0 && pos/3*4 < len(text) {
+				ks = append(ks, pos/3*4, pos/3*4+3)
+				aligned++
+			}
+		}
+	}
+	for i, k := range ks {
+		if k < 0 || k >= len(text) {
+			continue
+		}
+		m := append([]byte(nil), text...)
+		m[k] = "!*"[i%2]
+		emitRead(f, "eof", m, []string{"bytes", "stream1", "chunks64", "streamdata"}[i%4], "b64-corrupt")
+	}
+}
+
 // structuralOffsets: the cut points that matter for a CAR — around every section boundary and right after
 // every length prefix
 func structuralOffsets(raw []byte) []int {
@@ -728,6 +839,18 @@ func runContainerStream(c *ctx) error {
 			}
 		}
 	}
+	// tokens of EXACTLY chosen sizes: the CAR block (36 CID bytes + token) a few bytes either side of every power of two from
+	// 2^9 to 2^16 (where scratch buffers end and the length prefix grows), every size over a contiguous range in the thorough tier
+	for _, f := range formats {
+		for k := 9; k <= 16; k++ {
+			c.emit(fmt.Sprintf("go.ctn.sizes %s %d %d", f, (1<<k)-36-5, (1<<k)-36+5), "container.write:"+f, true, "sizes:"+f)
+		}
+		if c.thoro {
+			for lo := 420; lo < 4400; lo += 100 {
+				c.emit(fmt.Sprintf("go.ctn.sizes %s %d %d", f, lo, lo+99), "container.write:"+f, true, "sizes:"+f)
+			}
+		}
+	}
 	c.emit("go.ctn.concurrent", "container.concurrent", true, "concurrent")
 	c.emit("go.ctn.loader 0", "container.loader", true, "loader")
 	for _, kind := range []string{"dlg", "inv"} {
@@ -752,6 +875,10 @@ func runContainerStream(c *ctx) error {
 				}
 				emitRead(f, "eof", b, "bytes", "roundtrip")
 				emitRead(f, "eof", b, "chunks64", "roundtrip")
+				if useWriter && strings.HasSuffix(f, "b64") {
+					raw, _ := base64.StdEncoding.DecodeString(string(b))
+					b64Corruptions(f, b, raw, emitRead)
+				}
 			}
 		}
 	}
@@ -798,6 +925,9 @@ func runContainerStream(c *ctx) error {
 				emitRead(f, "eof", enc(m), "bytes", "bitflip")
 			}
 			emitRead(f, "eof", enc(append(append([]byte(nil), raw...), 0)), "bytes", "trailing")
+			if strings.HasSuffix(f, "b64") {
+				b64Corruptions(f, b, raw, emitRead)
+			}
 			if strings.HasPrefix(f, "car") {
 				secs := carSections(raw)
 				if len(secs) >= 2 {
